@@ -13,3 +13,29 @@ func (s *Server) VerifState() (peers, sessions int, seqnos map[string]uint64) {
 	}
 	return len(s.peers), len(s.sessions), seqnos
 }
+
+// VerifSessionSide reports whether a Session call of src towards dst is currently
+// registered as src's side of the session between the two peers.
+func (s *Server) VerifSessionSide(src, dst string) bool {
+	s.mtx.Lock()
+	defer s.mtx.Unlock()
+	key, srcIsPeerA := newSessionKey(src, dst)
+	t := s.sessions[key]
+	if t == nil {
+		return false
+	}
+	side, _ := t.getCurrPeers(srcIsPeerA)
+	return side != nil
+}
+
+// VerifListenState reports whether a Listen call is registered for the peer and the
+// nonce of the current registration.
+func (s *Server) VerifListenState(p string) (listening bool, nonce uint64) {
+	s.mtx.Lock()
+	defer s.mtx.Unlock()
+	t := s.peers[p]
+	if t == nil {
+		return false, 0
+	}
+	return t.listening, t.listenNonce
+}
